@@ -22,6 +22,7 @@
 #include <unifex/v1/async_scope.hpp>
 #include <unifex/v2/async_scope.hpp>
 
+#include <setjmp.h>
 #include <signal.h>
 #include <sys/mman.h>
 #include <unistd.h>
@@ -60,6 +61,7 @@ struct World {
   int fut_completions = 0, fut_outcome = -1, fut_payload = 0;
   bool drop_begun = false, drop_returned = false, stop_begun = false;
   bool terminated = false;
+  jmp_buf term_jmp; bool term_jmp_armed = false;
 
   World();
   ~World();
@@ -117,7 +119,10 @@ void segv_handler(int, siginfo_t* si, void*) {
   if (g_w) g_w->terminated = true;
   rt::fail("std::terminate() called");
   rt::obs("terminate");
-  rt::join(rt::self());   // never returns: the execution is reported (deadlock + monitor) with its schedule
+  // the process would die here.  To keep exploring, abandon the owner's call stack (its frames are
+  // never resumed; nothing is unwound) and let the scenario body wind the execution up.
+  if (g_w && g_w->term_jmp_armed && rt::self() == 0) longjmp(g_w->term_jmp, 1);
+  rt::join(rt::self());   // any other thread: never returns, reported as deadlock + monitor
   for (;;) pause();
 }
 
@@ -270,7 +275,7 @@ auto join_sender(unifex::v2::async_scope& s) { return s.join(); }
 auto join_sender(unifex::v1::async_scope& s) { return s.complete(); }
 
 void World::finish(bool joined) {
-  if (uaf) rt::fail("heap state accessed after it was freed (%d faulting accesses)", (int)uaf);
+  if (uaf) rt::fail("heap state accessed after it was freed");
   if (allocs != 1) rt::fail("expected exactly one heap allocation, saw %d", allocs);
   if (frees != allocs) rt::fail("heap state leaked: %d allocated, %d freed", allocs, frees);
   if (res_ctor_in_block != res_dtor_in_block) rt::fail("stored result constructed %d times, destroyed %d times", res_ctor_in_block, res_dtor_in_block);
@@ -300,15 +305,24 @@ void worker(World& w) {
 }
 
 template <typename Scope>
-void scenario(int kind, Owner owner, bool stopper) {
+void scenario(int kind, Owner owner, bool stopper, bool late = false) {
   World w; w.kind = kind;
   Scope scope;
+  volatile int t1v = -1, t2v = -1;
+  if (setjmp(w.term_jmp) != 0) {
+    // std::terminate() was reached on T0 (already reported): let the other threads finish, then stop
+    if (t1v >= 0) rt::join(t1v);
+    if (t2v >= 0) rt::join(t2v);
+    return;
+  }
+  w.term_jmp_armed = true;
   {
     auto fut0 = unifex::spawn_future(Leaf{}, scope, GuardAlloc<std::byte>{});
     std::optional<decltype(fut0)> fut{std::move(fut0)};
     if (!w.leaf) { rt::fail("spawned operation was not started by spawn_future"); return; }
     int t1 = rt::spawn([&] { worker(w); });
-    int t2 = stopper ? rt::spawn([&] { w.stop(); }) : -1;
+    int t2 = stopper ? rt::spawn([&w, t1, late] { if (late) rt::join(t1); w.stop(); }) : -1;
+    t1v = t1; t2v = t2;
     switch (owner) {
       case O_AWAIT: {
         rt::obs("fut.connect.begin");
@@ -317,9 +331,8 @@ void scenario(int kind, Owner owner, bool stopper) {
         fut.reset();
         rt::obs("fut.connect.end");
         rt::point("between-connect-and-start");
-        rt::obs("fut.start.begin");
         unifex::start(op);
-        rt::obs("fut.start.end");
+        rt::obs("fut.started");
         rt::join(t1); if (t2 >= 0) rt::join(t2);
         break;
       }
@@ -349,6 +362,7 @@ void scenario(int kind, Owner owner, bool stopper) {
       }
     }
   }
+  w.term_jmp_armed = false;
   bool joined = false;
   auto jop = unifex::connect(join_sender(scope), JoinRecv{&joined});
   unifex::start(jop);
@@ -366,6 +380,7 @@ SCENARIO(await_done) { scenario<V2>(K_DONE, O_AWAIT, false); }
 SCENARIO(cancel_value) { scenario<V2>(K_VALUE, O_AWAIT, true); }
 SCENARIO(cancel_error) { scenario<V2>(K_ERROR, O_AWAIT, true); }
 SCENARIO(cancel_done) { scenario<V2>(K_DONE, O_AWAIT, true); }
+SCENARIO(late_cancel_value) { scenario<V2>(K_VALUE, O_AWAIT, true, true); }
 SCENARIO(drop_value) { scenario<V2>(K_VALUE, O_DROP, false); }
 SCENARIO(drop_error) { scenario<V2>(K_ERROR, O_DROP, false); }
 SCENARIO(drop_done) { scenario<V2>(K_DONE, O_DROP, false); }
